@@ -83,3 +83,17 @@ def shank_folder(root, sh, label=LABEL):
 def clean(root):
     shutil.rmtree(root, ignore_errors=True)
     os.makedirs(root, exist_ok=True)
+
+
+def read_raw(path, ncols):
+    """int16 content of a .bin (reshaped to ncols columns) or of a .cbin/.ch pair, read without the library's reader"""
+    import mtscomp
+    path = str(path)
+    if path.endswith(".cbin"):
+        r = mtscomp.Reader()
+        r.open(path, path.replace(".cbin", ".ch"))
+        a = np.array(r[0:r.n_samples])
+        r.close()
+        return a
+    a = np.fromfile(path, dtype=np.int16)
+    return a.reshape(-1, ncols) if ncols and a.size % ncols == 0 else a
